@@ -1180,4 +1180,5 @@ static void sh_gen(Ctx& ctx) {
     });
 }
 
+VK_FRESH_THREADS;
 VK_MAIN("C17")
